@@ -78,6 +78,18 @@ def chk_integrate(case, acc, seed):
                 if abs(Il - exl) > 1e-9 * abs(exl):
                     acc.violation('integrate:simps:linear-exact', sub, f'simpson of a straight line = {Il} != {exl}')
             acc.cls('integrate')
+    # bounds beyond the sampled range select what is there: the integral is that over the sampled range
+    for method in ('trapz', 'simps'):
+        if method == 'simps' and n < 3:
+            continue
+        full = spec(g, gen).integrate(g[0], g[-1], method=method)
+        for a, b in ((g[0] - 25, g[-1]), (g[0], g[-1] + 40), (g[0] - 1, g[-1] + 1), (1e-3, 1e9)):
+            v = spec(g, gen).integrate(a, b, method=method)
+            if abs(v - full) > 1e-10 * (g[-1] - g[0]) * 16:
+                acc.violation(f'integrate:{method}:bounds-beyond-range', dict(case, start=a, end=b), f'integrate({a}, {b}) = {v} but the integral over the sampled range is {full}')
+        half = spec(g, gen).integrate(g[0] - 25, g[n // 2], method='trapz') + spec(g, gen).integrate(g[n // 2], g[-1] + 3, method='trapz')
+        if abs(half - spec(g, gen).integrate(method='trapz')) > 1e-10 * (g[-1] - g[0]) * 16:
+            acc.violation('integrate:trapz:additivity', dict(case, split=g[n // 2], beyond=True), 'additivity fails when the outer bounds lie beyond the sampled range')
     # default bounds = whole range
     s = spec(g, gen)
     if abs(s.integrate(method='trapz') - float(exact_pl_integral(g, gen, g[0], g[-1]))) > 1e-9 * (g[-1] - g[0]) * 16:
@@ -256,9 +268,41 @@ def chk_hist(case, acc, seed):
     return s
 
 
+def queries(s):
+    """read-only queries (they may populate caches inside the object): sample, bin, integrate"""
+    w = np.asarray(s.wave, float)
+    if len(w) < 2:
+        return None
+    lo, hi = w.min(), w.max()
+    probe = np.linspace(lo - 0.1 * (hi - lo), hi + 0.1 * (hi - lo), 9)
+    out = [np.asarray(s.sample(probe), float), np.asarray(s.sample(probe, method='nearest', fill_value=0), float), float(s.integrate(method='trapz'))]
+    try:
+        out.append(np.asarray(s.bin(np.linspace(lo, hi, 4), interp_method='trapz', preserve_power=False), float))
+    except Exception as e:
+        out.append(repr(type(e)))
+    return out
+
+
 def step_check(s, ev, sub, acc):
+    from lentil.radiometry import Spectrum
     w0, v0, u0 = np.array(s.wave, copy=True), np.array(s.value, copy=True), s.waveunit
+    try:
+        queries(s)                      # the object is used (sampled / binned) before it is edited
+    except Exception:
+        pass
     exc, extra = apply_event(s, ev)
+    # whatever happened before, read-only queries answer for the spectrum as it is now
+    if wellformed(s) is None and len(np.asarray(s.wave)) >= 2 and s.waveunit == 'nm':
+        try:
+            got = queries(s)
+            ref = queries(Spectrum(np.array(s.wave, copy=True), np.array(s.value, copy=True)))
+            same = all((isinstance(a, str) and a == b) or (not isinstance(a, str) and np.allclose(a, b, rtol=1e-12, atol=1e-12, equal_nan=True)) for a, b in zip(got, ref))
+            if not same:
+                acc.violation(f'resize:{ev[0]}:stale-queries', sub, f'after {ev} sample/bin/integrate answer differently from a fresh spectrum with the same wave and value')
+                return False
+        except Exception as e:
+            acc.violation(f'resize:{ev[0]}:queries-raise:{type(e).__name__}', sub, repr(e))
+            return False
     kind = ev[0]
     label = f'{kind}:{ev[1]}' if kind in ('append', 'resample') else kind
     bad = wellformed(s)
